@@ -94,7 +94,7 @@ pub struct Hooks<'a> {
     pub fuel: u64,
 }
 
-fn module_sources(case: &Case) -> BTreeMap<String, String> {
+pub fn module_sources(case: &Case) -> BTreeMap<String, String> {
     let mut m = BTreeMap::new();
     for (k, v) in &case.modules {
         let text = if v.compile_error {
